@@ -406,7 +406,7 @@ func init() {
 	register(&rt.Check{
 		ID:    "C08",
 		Level: "exploration",
-		Rule: "statement texts against an empty store, a populated memory store and the populated store wrapped in the memoizer: (a) every token sequence up to length L over the 55 token kinds rendered to text (L=2 quick, 3 thorough; complete), (b) generated statements of all eight kinds (vocabulary hitting and missing the data, LIMIT 0/1/-1/2^63-1/float/text, aggregates over empty patterns, bindings reused across S/P/O/ID/TYPE/AT positions, OPTIONAL, bounds), (b2) statements that go wrong only while rows are processed: aggregates (sum / count / count distinct) over columns mixing numeric literals with nodes, text, predicates and NULL in both FROM orders, CONSTRUCT / DECONSTRUCT over satisfiable patterns with exactly one ill-kinded binding in one template slot (first or later pair), lists that repeat a name (ORDER BY / GROUP BY keys, projections, graphs) with aliases on every projection, bindings left NULL by an OPTIONAL clause reused as subject / predicate / object / anchor / bound limit and in HAVING, ORDER BY, GROUP BY, aggregates and templates, (b3) every prefix of a statement that ends right after a token, two statements in one text, a statement followed by stray tokens, (b4) sentences derived at random from the grammar table, (b5) INSERT / DELETE statements of 1 to 1500 triples on a graph while three clients run full-scan, by-subject, by-predicate-object, aggregate and join SELECTs on it (memory store and memoizer; also under -race), (c) character- and token-level mutations of (b), (d) random bytes, random UTF-8 and random keyword salad; a sample also under -race; " +
+		Rule: "statement texts against an empty store, a populated memory store and the populated store wrapped in the memoizer: (a) every token sequence up to length L over the 55 token kinds rendered to text (L=2 quick, 3 thorough; complete), (b) generated statements of all eight kinds (vocabulary hitting and missing the data, LIMIT 0/1/-1/2^63-1/float/text, aggregates over empty patterns, bindings reused across S/P/O/ID/TYPE/AT positions, OPTIONAL, bounds), (b2) statements that go wrong only while rows are processed: aggregates (sum / count / count distinct) over columns mixing numeric literals with nodes, text, predicates and NULL in both FROM orders, CONSTRUCT / DECONSTRUCT over satisfiable patterns with exactly one ill-kinded binding in one template slot (first or later pair), lists that repeat a name (ORDER BY / GROUP BY keys, projections, graphs) with aliases on every projection, bindings left NULL by an OPTIONAL clause reused as subject / predicate / object / anchor / bound limit and in HAVING, ORDER BY, GROUP BY, aggregates and templates, (b3) every prefix of a statement that ends right after a token, two statements in one text, a statement followed by stray tokens, (b4) sentences derived at random from the grammar table, (b6) a sample of (b) with GOMAXPROCS=1, (b5) INSERT / DELETE statements of 1 to 1500 triples on a graph while three clients run full-scan, by-subject, by-predicate-object, aggregate and join SELECTs on it (memory store and memoizer; also under -race), (c) character- and token-level mutations of (b), (d) random bytes, random UTF-8 and random keyword salad; a sample also under -race; " +
 			"monitor per statement, in a journaling worker process: recover() in the calling goroutine, process exit (panic in an engine goroutine, fatal error, log.Fatal), all-goroutines-blocked and hard watchdog, goroutine-leak snapshot after return, table-xor-error; non-trivial = reached Execute (parsed and planned) or was rejected after >=3 tokens; distinct by text",
 		Assume: []string{"termination is restated as bounded progress (hard watchdog 120 s per batch, cases take milliseconds)", "a goroutine counts as started on behalf of the call if it was created by badwolf code after the pre-call snapshot"},
 		Floor:  500,
@@ -428,6 +428,7 @@ func init() {
 				{Name: "truncations", N: 16, Run: func(i int, r *rt.Rec) { c08Truncations(r, gen.Rng(seed, "c08u", i), trn) }},
 				{Name: "concurrent", N: 4, Run: func(i int, r *rt.Rec) { c08Concurrent(r, gen.Rng(seed, "c08c", i), 1+i%2, conc) }},
 				{Name: "concurrent-race", N: 2, Race: true, Run: func(i int, r *rt.Rec) { c08Concurrent(r, gen.Rng(seed, "c08cr", i), 1+i%2, conc/4) }},
+				{Name: "single-processor", N: rc / per, Procs: 1, Run: func(i int, r *rt.Rec) { c08Generated(r, gen.Rng(seed, "c08p", i), per, i%4 == 3) }},
 				{Name: "random", N: rn / per, Run: func(i int, r *rt.Rec) { c08Random(r, gen.Rng(seed, "c08r", i), per) }},
 				{Name: "race-sample", N: rc / per, Race: true, Run: func(i int, r *rt.Rec) { c08Generated(r, gen.Rng(seed, "c08x", i), per, i%2 == 1) }},
 			}
